@@ -1,0 +1,16 @@
+//go:build verif
+
+// Contracts for the verification machinery in /verif (comment-only; no code).
+// multiswarm: Close closes the tell hub whatever the inner swarms' Close calls return.
+
+package multiswarm
+
+//@ func (*multiSwarm).Close
+//@   noframe
+//@   requires mt != nil && inv(mt.tells)
+//@   ensures [hubclosed] closed(old(mt.tells.closed))
+//@   fnspec Close:
+//@     ensures inv(mt.tells)
+//@     preserves mt.tells.closed
+//@   loop 0:
+//@     invariant inv(mt.tells) && mt.tells.closed == old(mt.tells.closed)
